@@ -10,6 +10,12 @@ var Metas = map[string]Meta{
 		Technique: "symbolic execution of go/ssa + SMT (QF_BV) query per assertion; native replay of models",
 		Design:    "DESIGN.md §4 C06",
 	},
+	"C01": {
+		Text:      "Concurrency mode: the real RouteSendPID (table lookup, isAlive, lock-free Push, run), node.Kill and the runner goroutine of process.run (with its CAS protocol on the state word and the re-check of the four queues) are unfolded thread by thread into events on shared cells; one SMT query with integer clocks, read-from and atomicity constraints decides whether ANY interleaving lets two callbacks of the process overlap, handles a message twice, runs the terminate callback twice or runs anything after it. Bounds that complete: 1 sender with 0, 1 or 2 concurrent Kills, one activation per runner goroutine (an unwinding query shows no interleaving needs more). The defect it found (second Kill of a busy process) is fixed and has a native reproducer.",
+		Note:      bmcNote + " Sequential consistency; unregisterProcess is replaced by a counting stub in this entry (its own behaviour: C04/C06); a satisfiable query yields a schedule that is NOT replayed natively and is therefore reported as inconclusive, not as a violation. Two or more senders and meta-processes did not complete within the time budget and are outside the claim.",
+		Technique: "thread-modular symbolic unfolding of go/ssa + partial-order SMT encoding of interleavings (integer clocks, read-from), unwinding check",
+		Design:    "DESIGN.md §2.6, §4 C01 and the status section",
+	},
 	"C02": {
 		Text:      "The real RouteSendPID/RouteSendProcessID/RouteSendAlias run symbolically against a target process whose state (sleeping, running, terminated, unknown), mailbox bound (unbounded, 1, 2), fill level and fallback configuration (enabled, name = own/other/missing, fallback mailbox full or not) are all symbolic, with a fully symbolic priority value: success is reported exactly when the message sits in exactly one real queue (the one its priority selects, or the fallback's, wrapped with the original recipient and tag), an error means it sits nowhere and names the true cause. (Exactly-once handling and absence of lost wake-ups under concurrent senders and the runner are the subject of the concurrency entries when present in the evidence.)",
 		Note:      bmcNote + " Over-admission of a bounded mailbox by concurrent producers and a receiver that terminates meanwhile are outside the statement.",
